@@ -116,6 +116,7 @@ def runCall (d : DSt) (c : Call) : DSt × List String :=
   | ["q", kind, i] => (d, gridQuery d.grid kind (natOf i))
   | ["qr", kind, i] => (d, gridQueryR d.grid kind (natOf i))
   | ["iter", which, dir] => (d, gridIter d.grid which dir)
+  | "adi" :: _ => (d, gridAdi d.grid c.toks)
   | "graph" :: _ =>
     let (st', outs) := runFlow d.st c
     ({ d with st := st' }, [line "topo_model_agrees" (if topoAgrees d.grid st' then "1" else "0")] ++ outs)
